@@ -594,6 +594,11 @@ class Scheduler:
             return commute
         if instruction1.name not in _SELF_COMMUTING_GATES:
             return False
+        if len(instruction1.targets) > 2 or len(instruction2.targets) > 2:
+            # A gate given by more than two targets (e.g. TOFFOLI([c1, c2, t]))
+            # encodes the role of each qubit in the order of the list,
+            # which Instruction has sorted: equal sorted lists say nothing.
+            return False
         if (instruction1.controls) and (
             instruction1.controls == instruction2.controls
         ):
